@@ -817,9 +817,11 @@ def _scribble(x):
         x[...] = (True if x.dtype.kind == "b" else 3 if x.dtype.kind in "iu" else -7.5e3)
 
 
-def _int_as(rng, v, zero_d=True):
+def _int_as(rng, v, zero_d=False):
     """the same integer as another integer type.  numpy.uint64 is left out: TODO(round 5) rebin() raises IndexError for nr / npp
-    given as numpy.uint64 (numpy.arange(uint64) is a float64 array) - reported, not in the committed generator"""
+    given as numpy.uint64 (numpy.arange(uint64) is a float64 array) - reported, not in the committed generator.
+    0-d integer ARRAYS are not generated for counts either (they were until the second round of harmless changes): a count is an
+    integer, and argument validation that refuses an ndarray where a count is expected (harmless change C13-E) is legitimate"""
     kinds = [numpy.int32, numpy.int64, numpy.intp, numpy.uint32] + ([numpy.array] if zero_d else [])
     return rng.choice(kinds)(v)
 
@@ -940,6 +942,7 @@ def oracle_round5(chk, KL):
         # numpy.square (x·x) instead of libm's pow(x, 2), which differ by one ulp for about one ri in a thousand (seen: ri =
         # 0.6799356780698036, radp / evals / rabas off by 1e-17 … 5e-15) - so it gets the property check below, not an equality
         rif = rng.choice([numpy.float64, float])(ri)
+        osc, ktag = rng.choice([2.0, 20.0, 100.0, 0.5]), rng.choice(["kolmogorov", "kolstf"])
         variants = [
             ("%s.make_kl(%s(%d), %s(%d), ri=%s(%r), nr=%s(%d))", lambda a, b, c, d: A.make_kl(a, b, ri=c, nr=d),
              (_int_as(rng, nmax), _int_as(rng, dim), rif, _int_as(rng, nr))),
@@ -948,6 +951,10 @@ def oracle_round5(chk, KL):
             ("%s.make_kl(nmax=%s(%d), dim=%s(%d), ri=%s(%r), nr=%s(%d), stf='kolmogorov', outerscale=None, mask=numpy.True_)  [keywords]",
              lambda a, b, c, d: A.make_kl(nmax=a, dim=b, ri=c, nr=d, stf="kolmogorov", outerscale=None, mask=numpy.True_), (nmax, dim, ri, nr)),
             ("%s.make_kl(%s(%d), %s(%d), ri=%s(%r), nr=%s(%d), mask=1)", lambda a, b, c, d: A.make_kl(a, b, ri=c, nr=d, mask=1), (nmax, dim, ri, nr)),
+            # a Kolmogorov tag with an outer scale passed along (documented as relevant for the von Karman tags only): still the
+            # Kolmogorov modes and variances the property speaks of (seeded change C13-I dispatched on the outer scale instead)
+            ("%s.make_kl(%s(%d), %s(%d), ri=%s(%r), nr=%s(%d), stf='kolmogorov', outerscale=" + repr(osc) + ")  [Kolmogorov tag, outer scale given]",
+             lambda a, b, c, d: A.make_kl(a, b, ri=c, nr=d, stf=ktag, outerscale=osc), (nmax, dim, ri, nr)),
         ]
         for fmt, fn, args in variants:
             desc = fmt % ((api,) + tuple(x for a in args for x in (type(a).__name__, a.item() if hasattr(a, "item") else a)))
@@ -1248,7 +1255,7 @@ def run(chk):
                 "resampling-error bound of R_lin(r) az(m theta); several constructions for one (ri, nr) in one process each checked; "
                 "distinct = distinct (ri, nr, npp, nfunc[, dim]). ROUND 5 (generator audit): radp^2 evenly spaced by (1 - ri^2)/nr, first point "
                 "inside the first ring (abs 1e-12; observed <= 5e-16); EXACT equalities, no tolerance: package-level names are the module's "
-                "functions; make_kl / gkl_basis / gkl_sfi with numpy int32/int64/intp/uint32 scalars, 0-d integer arrays, numpy.float64 ri, all "
+                "functions; make_kl / gkl_basis / gkl_sfi with numpy int32/int64/intp/uint32 scalars, numpy.float64 ri, all "
                 "arguments positional, all by keyword, both Kolmogorov tags, mask = 1 / numpy.True_ = the plain call; the manual route "
                 "gkl_radii -> gkl_kernel (radii read-only / strided / reversed / list) -> gkl_fcom (kernels read-only / Fortran, verbose) -> "
                 "gkl_azimuthal = make_kl's polar basis, pol2car(set_pctr(basis, dim, 0), gkl_sfi(basis, i)) = make_kl(...)[0][i], with every "
@@ -1289,7 +1296,7 @@ def run(chk):
         "factorisation of bilinear interpolation of a separable table and the periodic closure of the azimuth "
         "(bilinear_separable, wrap_closes_azimuth)",
         "Real.sqrt/cos/sin/pi model numpy's up to IEEE rounding",
-        "integer arguments are generated as Python int, numpy int32 / int64 / intp / uint32 scalars and 0-d int64 arrays; numpy.uint64 "
+        "integer arguments are generated as Python int, numpy int32 / int64 / intp / uint32 scalars (0-d arrays are not generated for counts: validation may refuse them); numpy.uint64 "
         "is NOT generated (rebin raises IndexError for nr / npp given as numpy.uint64 - numpy.arange(uint64) is a float64 array; "
         "reported in round 5, not a committed finding), integer scalars narrower than 32 bits neither (ncp*ncp wraps); dim = 1 is not "
         "generated (setpincs divides 0/0 and indexes with the result); ri is a Python float or numpy.float64 (bit-identical results "
